@@ -60,6 +60,22 @@ class DriverError(Exception):
 
 
 _PRIVATE_DRIVER = [None]
+USE_LASTGOOD = [False]     # set by check.py when the driver cannot be built from the tree as it is now
+LASTGOOD = DRIVER + ".lastgood"
+
+
+def remember_good_driver():
+    """After a successful build: keep a copy, so that the oracle still has the published model to compare with when a later
+    source change makes the model (whose constants are regenerated from the source) unbuildable."""
+    import shutil
+    with lake_lock():
+        if os.path.exists(DRIVER):
+            try:
+                if not os.path.exists(LASTGOOD) or os.path.getmtime(LASTGOOD) < os.path.getmtime(DRIVER):
+                    shutil.copy2(DRIVER, LASTGOOD + ".tmp")
+                    os.replace(LASTGOOD + ".tmp", LASTGOOD)
+            except OSError:
+                pass
 
 
 def private_driver():
@@ -70,12 +86,15 @@ def private_driver():
     import atexit
     import shutil
     with lake_lock():
-        if not os.path.exists(DRIVER):
+        src = DRIVER
+        if USE_LASTGOOD[0]:
+            src = LASTGOOD
+        elif not os.path.exists(DRIVER):
             subprocess.run(["lake", "build", "pvdriver"], cwd=LEAN, stdout=subprocess.PIPE, stderr=subprocess.STDOUT, timeout=3000)
-        if not os.path.exists(DRIVER):
-            raise DriverError("driver binary missing: " + DRIVER)
+        if not os.path.exists(src):
+            raise DriverError("driver binary missing: " + src)
         dst = DRIVER + ".run.%d" % os.getpid()
-        shutil.copy2(DRIVER, dst)
+        shutil.copy2(src, dst)
     _PRIVATE_DRIVER[0] = dst
     atexit.register(lambda: os.path.exists(dst) and os.unlink(dst))
     return dst
